@@ -1,68 +1,58 @@
 (* Towards the bridge between the one-cell machine of AtomicCoRR.v /
-   AtomicClosure.v and the executions of Ops.v: the GENERALISED machine and the
-   call-level bridge.  (The full execution-level bridge is NOT here; what is
-   missing is listed at the end of this comment.)
+   AtomicClosure.v and the executions of Ops.v.
 
    1. XGrow.  [grow st t v]: clock_t := clock_t join v, for an ARBITRARY view v
-      that is [admissible]: forall u <> t, v[u] <= clock_u[u] (v knows no more
-      about another thread than that thread knows about itself -- exactly what
+      that is [admissible]: forall u <> t, v[u] <= clock_u[u] (what
       ClockFacts.run_clock_wf provides for every view stored in an execution
-      state).  No "knowledge-closedness" of v is needed: [grow_goodO] /
-      [grow_goodS] (GoodS = the full invariant of AtomicClosure.v survives),
-      [grow_facts] (no store changes, knowledge only grows), [grow_knows].
-      XSync u is the instance v := clock_u ([sync_is_grow], [sync_admissible]);
-      the st_sync of any live store is admissible ([sync_view_admissible]:
-      acquire fences over this cell).
-   2. The generalised machine [bstep] / [brun]: the model's operations
-      (BOp: mstep RModel = Atomic.atomic_load / atomic_rmw / atomic_store) and
-      BGrow v.  From ANY GoodS state: [bstep_goodS], [brun_goodS];
-      [brun_stable] (no vv_lt edge between live stores is ever lost),
-      [brun_knows]; [brun_atomicity] (RMW atomicity in every state of every
-      run), [brun_never_none] (assert_ne! cannot fire); [CoRR_CoWR_b],
-      [CoRR_CoWR_rmw_b] (happens-before versions, any admissible views in
-      between), [CoRR_same_thread_b], [CoWR_same_thread_b],
+      state).  [grow_goodO] / [grow_goodS]: the full invariant GoodS survives;
+      [grow_facts], [grow_knows]; XSync u is the instance v := clock_u
+      ([sync_is_grow], [sync_admissible]); [sync_view_admissible].
+   1b. [EqSt]: states that differ only in tracking clocks and st_value;
+      [unsync_load_step] (MUnsyncLoad) and [with_mut_step] (MWithMut, fix D23):
+      [unsync_load_out], [with_mut_out].
+   2. The generalised machine [bstep] / [brun]:
+        BOp op            the model's XLoad / XStore / XRmw / XSync (released = vv_new)
+        BGrow v           any other synchronisation
+        BStoreR rel v o   MStorePost with an arbitrary released clock rel <= clock
+        BRmwR rel ...     MRmwPost  with an arbitrary released clock
+        BUnsyncLoad, BWithMut v
+      [bstep_out]: every step preserves GoodO and StampO, satisfies [ext], and
+      only grows the clocks; [bstep_goodS], [brun_goodS], [brun_stable],
+      [brun_knows], [brun_atomicity], [brun_never_none], [CoRR_CoWR_b],
+      [CoRR_CoWR_rmw_b], [CoRR_same_thread_b], [CoWR_same_thread_b],
       [CoRW_same_thread_b], [CoWW_same_thread_b].
-   3. The start, generalised: [atomic_new_eq], [atomic_new_goodS]: the cell may
-      be created by ANY thread [me] with ANY clock c0 (own component >= 1) in a
-      system of threads with arbitrary clocks, provided the clocks are bounded
-      (clock_u[t] <= clock_t[t]) and every clock dominates c0 (see "missing" 1).
-   4. The calls Ops.v makes are machine steps: [load_call_is_step] (candidates
-      computed with ANY last_yield: [candidates_ly]), [store_call_is_step],
-      [rmw_call_is_step]; and one micro-operation end to end on the execution
-      record: [MStorePost_is_step] (exec_micro e me (MStorePost a v o) = MOk e'
-      is the step XStore of thread me on (atomic a, map t_caus threads)).
+      (InvO no longer contains "every clock dominates the tracking clocks":
+      a step simply does not exist when track_* panics, as in mstep.)
+   3. The start: [atomic_new_eq], [atomic_new_goodS]: the cell may be created by
+      ANY thread with ANY clock in a system of threads with arbitrary bounded
+      clocks (no domination hypothesis any more).
+   4. The calls Ops.v makes are machine steps: [load_call_is_step] (any
+      last_yield), [store_call_is_step], [rmw_call_is_step].
+   5. The micro-operations of Ops.v on the execution record, with
+      clocks e := map t_caus (e_threads e):
+        [MStorePost_is_step]   -> BStoreR (t_rel t0)       (needs t_rel <= t_caus)
+        [MLoadPost_is_step]    -> BOp (XLoad idx o)
+        [MFuLoadPost_is_step]  -> BOp (XLoad idx fo)
+        [MRmwPost_is_step]     -> BRmwR (t_rel t0) idx (rmw_fun k)
+        [MUnsyncLoad_is_step]  -> BUnsyncLoad
+        [MWithMut_is_step]     -> BWithMut v
+      Stated hypotheses: (a) "the index chosen by choose_store is a candidate"
+      for the three loads/RMWs -- true when the path is being extended, a
+      whole-exploration property on replay (Ops.choose_store takes the recorded
+      index without checking it); (b) vle (t_rel t0) (t_caus t0): t_rel is only
+      ever set to a snapshot of t_caus (ClockFacts.tstep), so it is an invariant
+      of executions, but it is not proved in ClockFacts.v and not here; (c) the
+      ring is not full (wrap-around is out of scope).
+      Building blocks for the remaining frame property: [ga_upd_object_other],
+      [clocks_upd_thread_keep], [clocks_log_op], [clocks_push_cont],
+      [set_caus_join_is_grow], [choose_store_frame].
 
-   MISSING for "every run of Ops.v projects to a run of brun on every atomic":
-   1. InvO (AtomicCoRR.v) contains i_um / i_ul: EVERY thread's clock dominates
-      at_unsync_mut / at_unsync_loaded.  That is how the machine knows that
-      track_load / track_store cannot panic; it is false in general executions
-      (a thread that never synchronised with the creator; MWithMut and
-      MUnsyncLoad (fix D23) raise these tracking clocks).  The invariant has to
-      be weakened (drop the two fields, keep the machine's steps conditional on
-      track_* = inl, which mstep already is): a mechanical change of
-      AtomicCoRR.v / AtomicClosure.v (every use of track_load_ok' /
-      track_store_ok' becomes a case distinction), not possible from here.
-      With it, MWithMut / MUnsyncLoad become two more step kinds that change
-      only the tracking clocks and the newest store's value.
-   2. released: Ops.v passes t_rel, the machine passes vv_new (true for threads
-      that never executed a release fence); the store-phase lemmas of
-      AtomicCoRR.v fix vv_new.  Generalising needs "t_rel <= t_caus" (then a
-      store seen by released is seen by the clock) in store_phase_inv /
-      store_sy.
-   3. replay: choose_store takes the index from the recorded path WITHOUT
-      checking that it is a candidate (Ops.choose_store, not-traversed branch;
-      Path.branch_load even returns 0 beyond the recorded length).  That the
-      replayed index is a candidate is a property of the whole exploration
-      (the same prefix is re-executed deterministically), not of one step;
-      [load_call_is_step] / [rmw_call_is_step] therefore take "In idx l" as a
-      hypothesis.
-   4. spawn: the list of clocks grows.  Keep it at length MAX_THREADS, padded
-      with vv_new, and spawn is a BGrow of the new index; needs "components of
-      unspawned threads are 0 everywhere" (in ClockFacts) for admissibility.
-   5. the record plumbing of [MStorePost_is_step] for MLoadPost / load_post /
-      MFuLoadPost / MRmwPost, and "every other micro-operation leaves the
-      atomic alone and is a BGrow" (one case per micro-operation, with
-      ClockFacts.run_clock_wf for admissibility). *)
+   STILL MISSING for "every run of Ops.v projects to a run of brun on every
+   atomic": the frame lemma over ALL other micro-operations and schedule()
+   (each leaves atomic a alone and is a BGrow / identity on clocks e, with
+   ClockFacts.run_clock_wf for admissibility), spawn (pad the clock list to
+   MAX_THREADS with vv_new; needs "components of unspawned threads are 0"), the
+   invariant t_rel <= t_caus, and then the induction over SyncMono.steps. *)
 Require Import LV.Base LV.VV LV.VVFacts LV.Path LV.Prog LV.Objects LV.Atomic LV.AtomicFacts
                LV.AtomicCoherence LV.AtomicCoRR LV.AtomicClosure LV.Exec LV.Ops.
 From Coq Require Import Lia.
@@ -130,7 +120,202 @@ Proof.
 Qed.
 
 (* ------------------------------------------------------------------ *)
-(* 2. the generalised machine: the model's operations + XGrow           *)
+(* 1b. UnsafeCell-style accesses (MUnsyncLoad, MWithMut after fix D23): they
+       tick the clock, change the tracking clocks and the newest value, and
+       leave every clock of every store alone                            *)
+
+Definition EqSt (s s' : atomic_state) : Prop :=
+  at_cnt s' = at_cnt s /\ at_mutating s' = at_mutating s /\
+  length (at_stores s') = length (at_stores s) /\
+  (forall k, at_cnt s <= k -> get_store s' k = get_store s k) /\
+  forall k,
+    st_hb (get_store s' k) = st_hb (get_store s k) /\
+    st_mo (get_store s' k) = st_mo (get_store s k) /\
+    st_sync (get_store s' k) = st_sync (get_store s k) /\
+    st_seen (get_store s' k) = st_seen (get_store s k) /\
+    st_id (get_store s' k) = st_id (get_store s k) /\
+    st_rmw_src (get_store s' k) = st_rmw_src (get_store s k).
+
+Section EqStFacts.
+  Variables s s' : atomic_state.
+  Hypothesis HE : EqSt s s'.
+
+  Lemma eq_mo : forall k, mo s' k = mo s k.
+  Proof. intros k. unfold mo. destruct HE as [_ [_ [_ [_ F]]]]. apply (F k). Qed.
+  Lemma eq_hbk : forall own k, hbk own s' k = hbk own s k.
+  Proof. intros own k. unfold hbk. destruct HE as [_ [_ [_ [_ F]]]]. destruct (F k) as [H _]. rewrite H. reflexivity. Qed.
+  Lemma eq_K : forall own x y, K own s' x y <-> K own s x y.
+  Proof. intros own x y. unfold K. rewrite eq_hbk, eq_mo. tauto. Qed.
+  Lemma eq_cnt : at_cnt s' = at_cnt s.
+  Proof. apply HE. Qed.
+  Lemma eq_seen : forall k, st_seen (get_store s' k) = st_seen (get_store s k).
+  Proof. intros k. destruct HE as [_ [_ [_ [_ F]]]]. apply (F k). Qed.
+  Lemma eq_sync : forall k, st_sync (get_store s' k) = st_sync (get_store s k).
+  Proof. intros k. destruct HE as [_ [_ [_ [_ F]]]]. apply (F k). Qed.
+  Lemma eq_id : forall k, st_id (get_store s' k) = st_id (get_store s k).
+  Proof. intros k. destruct HE as [_ [_ [_ [_ F]]]]. apply (F k). Qed.
+  Lemma eq_src : forall k, st_rmw_src (get_store s' k) = st_rmw_src (get_store s k).
+  Proof. intros k. destruct HE as [_ [_ [_ [_ F]]]]. apply (F k). Qed.
+
+  Lemma EqSt_GoodO : forall own rk cs, GoodO own rk s cs -> GoodO own rk s' cs.
+  Proof.
+    intros own rk cs [HI [HL [HC HSy]]]. pose proof eq_cnt as A.
+    destruct HE as [_ [B [E [D _]]]].
+    split; [|split; [|split]].
+    - constructor.
+      + rewrite E. apply (i_len HI).
+      + rewrite A. apply (i_cnt1 HI).
+      + rewrite A. apply (i_cnt7 HI).
+      + rewrite B. apply (i_mut HI).
+      + apply (i_nthr HI).
+      + apply (i_clen HI).
+      + intros k Hk. rewrite A in Hk. rewrite (D k Hk). apply (i_dead HI Hk).
+      + intros k Hk. rewrite A in Hk. apply (i_own HI Hk).
+      + intros k Hk. rewrite A in Hk. rewrite eq_hbk. apply (i_key1 HI Hk).
+      + intros k Hk. rewrite A in Hk. rewrite eq_hbk, eq_seen. apply (i_seen HI Hk).
+      + intros k Hk. rewrite A in Hk. apply eq_K. apply (i_hbmo HI Hk).
+      + intros k u Hk Hu. rewrite A in Hk. rewrite eq_mo. apply (i_bmo HI Hk Hu).
+      + intros k u Hk Hu. rewrite A in Hk. rewrite eq_sync. apply (i_bsync HI Hk Hu).
+      + apply (i_bclk HI).
+      + intros x y Hx Hy HK. rewrite A in Hx, Hy. rewrite !eq_mo. apply (i_star HI Hx Hy). apply eq_K. exact HK.
+      + intros x y Hx Hy Hne H1 H2. rewrite A in Hx, Hy. apply (i_D HI Hx Hy Hne); apply eq_K; assumption.
+    - constructor.
+      + intros k Hk. rewrite A in Hk. rewrite eq_id. apply (lk_id HL Hk).
+      + intros r sl sid Hr Hs. rewrite A in Hr. rewrite eq_src in Hs. apply (lk_src HL Hr Hs).
+      + intros r sl sid Hr Hs. rewrite A in Hr. rewrite eq_src in Hs. apply eq_K. apply (lk_ord HL Hr Hs).
+      + intros x y Hx Hy. rewrite A in Hx, Hy. apply (ln_inj HL Hx Hy).
+      + intros x y Hx Hy Hne HK. rewrite A in Hx, Hy. apply (ln_ext HL Hx Hy Hne). apply eq_K. exact HK.
+      + intros r sl sid x Hr Hs Hx. rewrite A in Hr, Hx. rewrite eq_src in Hs. apply (ln_adj HL Hr Hs Hx).
+    - intros r sl sid x Hr Hs Hx Hn1 Hn2. rewrite A in Hr, Hx. rewrite eq_src in Hs.
+      destruct (HC r sl sid x Hr Hs Hx Hn1 Hn2) as [H1 H2].
+      split; intros H; apply eq_K; [apply H1 | apply H2]; apply eq_K; exact H.
+    - intros x y Hx Hy H. rewrite A in Hx, Hy. rewrite eq_seen, eq_sync in H.
+      apply eq_K. apply (HSy x y Hx Hy H).
+  Qed.
+
+  Lemma EqSt_StampO : forall cs, StampO s cs -> StampO s' cs.
+  Proof.
+    intros cs [Hb Hl]. constructor.
+    - intros a u w Ha Hn. rewrite eq_cnt in Ha. rewrite eq_seen in Hn. apply (Hb a u w Ha Hn).
+    - intros a Ha. rewrite eq_cnt in Ha. rewrite eq_seen. apply (Hl a Ha).
+  Qed.
+
+  Lemma EqSt_ext : forall own, ext own s own s'.
+  Proof.
+    intros own. split; [rewrite eq_cnt; apply le_n|]. intros a Ha.
+    split; [reflexivity|]. split; [apply eq_hbk|]. split; [rewrite eq_mo; apply vle_refl|].
+    intros c H. rewrite eq_seen. exact H.
+  Qed.
+End EqStFacts.
+
+Lemma EqSt_same_stores : forall s s',
+  at_cnt s' = at_cnt s -> at_mutating s' = at_mutating s -> at_stores s' = at_stores s -> EqSt s s'.
+Proof.
+  intros s s' Hc Hm Hst. unfold EqSt, get_store. rewrite Hst.
+  split; [exact Hc|]. split; [exact Hm|]. split; [reflexivity|]. split; [reflexivity|].
+  intros k. repeat split.
+Qed.
+
+Lemma track_unsync_load_inl : forall s c s1, track_unsync_load s c = inl s1 ->
+  at_cnt s1 = at_cnt s /\ at_mutating s1 = at_mutating s /\ at_stores s1 = at_stores s.
+Proof.
+  intros s c s1 H. unfold track_unsync_load in H. destruct (at_mutating s); [discriminate|].
+  destruct (vv_ahead c (at_unsync_mut s)); [discriminate|].
+  destruct (vv_ahead c (at_stored s)); [discriminate|]. inversion H. repeat split.
+Qed.
+
+Lemma track_unsync_mut_inl : forall s c s1, track_unsync_mut s c = inl s1 ->
+  at_cnt s1 = at_cnt s /\ at_mutating s1 = at_mutating s /\ at_stores s1 = at_stores s.
+Proof.
+  intros s c s1 H. unfold track_unsync_mut in H. destruct (at_mutating s); [discriminate|].
+  destruct (vv_ahead c (at_loaded s)); [discriminate|].
+  destruct (vv_ahead c (at_unsync_loaded s)); [discriminate|].
+  destruct (vv_ahead c (at_stored s)); [discriminate|].
+  destruct (vv_ahead c (at_unsync_mut s)); [discriminate|]. inversion H. repeat split.
+Qed.
+
+(* MUnsyncLoad *)
+Definition unsync_load_step (st : mstate) (t : nat) : option mstate :=
+  let '(s, cs) := st in
+  if negb (Nat.ltb t (length cs)) then None else
+  let c := vv_inc (clk cs t) t in
+  match track_unsync_load s c with
+  | inl s1 => Some (s1, list_set cs t c)
+  | inr _ => None
+  end.
+
+(* MWithMut v *)
+Definition with_mut_step (st : mstate) (t : nat) (v : N) : option mstate :=
+  let '(s, cs) := st in
+  if negb (Nat.ltb t (length cs)) then None else
+  let c := vv_inc (clk cs t) t in
+  match track_unsync_mut s c with
+  | inl s1 =>
+      let idx := aindex (at_cnt s1 - 1) in
+      let s2 := at_set_stores s1 (list_upd (at_stores s1) idx (fun x => st_set_value x v)) (at_cnt s1) in
+      match track_unsync_mut s2 c with
+      | inl s3 => Some (s3, list_set cs t c)
+      | inr _ => None
+      end
+  | inr _ => None
+  end.
+
+Lemma tick_out : forall own rk s s' cs t,
+  GoodO own rk s cs -> StampO s cs -> t < length cs -> EqSt s s' ->
+  StepOut own s cs s' (list_set cs t (vv_inc (clk cs t) t)).
+Proof.
+  intros own rk s s' cs t HG HS Ht HE. pose proof HG as [HI _].
+  destruct (EqSt_GoodO HE HG) as [HI' [HL' [HC' HSy']]].
+  exists own, rk. split; [split; [|split; [exact HL' | split; [exact HC' | exact HSy']]]|].
+  - apply (InvO_clock HI' Ht (sf_le cs t) (sf_len HI Ht) (sf_oth HI Ht)).
+  - split; [apply (@stamp_clock s' cs _ (EqSt_StampO HE HS) (@clk_set_grow cs t _ Ht (sf_le cs t)))|].
+    split; [apply (EqSt_ext HE)|].
+    split; [apply list_set_length | apply (@clk_set_grow cs t _ Ht (sf_le cs t))].
+Qed.
+
+Theorem unsync_load_out : forall own rk s cs t s' cs',
+  GoodO own rk s cs -> StampO s cs -> unsync_load_step (s, cs) t = Some (s', cs') ->
+  StepOut own s cs s' cs'.
+Proof.
+  intros own rk s cs t s' cs' HG HS H. unfold unsync_load_step in H.
+  destruct (Nat.ltb_spec t (length cs)) as [Ht|Ht]; cbn [negb] in H; [|discriminate].
+  destruct (track_unsync_load s (vv_inc (clk cs t) t)) as [s1|p] eqn:Htr; [|discriminate].
+  inversion H. subst s' cs'. destruct (track_unsync_load_inl _ _ Htr) as [A [B C]].
+  apply (@tick_out own rk s s1 cs t HG HS Ht (@EqSt_same_stores s s1 A B C)).
+Qed.
+
+Theorem with_mut_out : forall own rk s cs t v s' cs',
+  GoodO own rk s cs -> StampO s cs -> with_mut_step (s, cs) t v = Some (s', cs') ->
+  StepOut own s cs s' cs'.
+Proof.
+  intros own rk s cs t v s' cs' HG HS H. unfold with_mut_step in H.
+  destruct (Nat.ltb_spec t (length cs)) as [Ht|Ht]; cbn [negb] in H; [|discriminate].
+  destruct (track_unsync_mut s (vv_inc (clk cs t) t)) as [s1|p] eqn:Htr; [|discriminate].
+  cbv zeta in H.
+  match type of H with match track_unsync_mut ?S2 _ with _ => _ end = _ => set (s2 := S2) in * end.
+  destruct (track_unsync_mut s2 (vv_inc (clk cs t) t)) as [s3|p] eqn:Htr2; [|discriminate].
+  inversion H. subst s' cs'.
+  destruct (track_unsync_mut_inl _ _ Htr) as [A [B C]].
+  destruct (track_unsync_mut_inl _ _ Htr2) as [A2 [B2 C2]].
+  pose proof HG as [HI _]. pose proof (i_cnt1 HI) as H1. pose proof (i_cnt7 HI) as H7.
+  apply (@tick_out own rk s s3 cs t HG HS Ht).
+  set (idx := aindex (at_cnt s1 - 1)) in *.
+  assert (Hidx : idx < at_cnt s).
+  { unfold idx. rewrite A. rewrite aindex_small by lia. lia. }
+  assert (Hg : forall k, get_store s3 k = if Nat.eqb k idx then st_set_value (get_store s idx) v else get_store s k).
+  { intros k. unfold get_store. rewrite C2. unfold s2. cbn [at_stores at_set_stores]. rewrite C.
+    rewrite (@list_upd_nth astore (at_stores s) idx _ k store_default) by (rewrite (i_len HI); lia).
+    reflexivity. }
+  unfold EqSt. split; [rewrite A2; unfold s2; cbn [at_cnt at_set_stores]; exact A|].
+  split; [rewrite B2; unfold s2; cbn [at_mutating at_set_stores]; exact B|].
+  split; [rewrite C2; unfold s2; cbn [at_stores at_set_stores]; rewrite list_upd_length, C; reflexivity|].
+  split.
+  - intros k Hk. rewrite Hg. destruct (Nat.eqb_spec k idx); [lia | reflexivity].
+  - intros k. rewrite Hg. destruct (Nat.eqb_spec k idx) as [e|_]; [subst k|]; repeat split.
+Qed.
+
+(* ------------------------------------------------------------------ *)
+(* 2. the generalised machine                                           *)
 
 Definition admissible_b (cs : list vv) (t : nat) (v : vv) : bool :=
   forallb (fun u => Nat.eqb u t || Nat.leb (vv_get v u) (vv_get (clk cs u) u)) (seq 0 (length cs)).
@@ -145,14 +330,22 @@ Proof.
 Qed.
 
 Inductive bop :=
-  | BOp (op : aop)       (* an atomic access / XSync of the model's machine *)
-  | BGrow (v : vv).      (* any other synchronisation: join the view v *)
+  | BOp (op : aop)       (* an access / XSync of the model's machine (released = vv_new) *)
+  | BGrow (v : vv)       (* any other synchronisation: join the admissible view v *)
+  | BStoreR (rel : vv) (v : N) (o : ord)                       (* MStorePost with t_rel = rel *)
+  | BRmwR (rel : vv) (idx : nat) (f : N -> option N) (so fo : ord)  (* MRmwPost with t_rel = rel *)
+  | BUnsyncLoad          (* MUnsyncLoad *)
+  | BWithMut (v : N).    (* MWithMut *)
 
 Definition bstep (st : mstate) (t : nat) (b : bop) : option mstate :=
   match b with
   | BOp op => mstep RModel st t op
   | BGrow v => if Nat.ltb t (length (snd st)) && admissible_b (snd st) t v
                then Some (grow st t v) else None
+  | BStoreR rel v o => store_stepR st t rel v o
+  | BRmwR rel idx f so fo => rmw_stepR st t rel idx f so fo
+  | BUnsyncLoad => unsync_load_step st t
+  | BWithMut v => with_mut_step st t v
   end.
 
 Fixpoint brun (st : mstate) (evs : list (nat * bop)) : option mstate :=
@@ -171,11 +364,29 @@ Proof.
   split; [exact Ht|]. split; [apply admissible_b_spec; exact Ha | reflexivity].
 Qed.
 
+(* every step: invariant, stamps, [ext] of AtomicCoRR.v, clocks only grow *)
+Theorem bstep_out : forall own rk s cs t b s' cs',
+  GoodO own rk s cs -> StampO s cs -> bstep (s, cs) t b = Some (s', cs') ->
+  StepOut own s cs s' cs'.
+Proof.
+  intros own rk s cs t b s' cs' HG HS H. destruct b as [op|v|rel v o|rel idx f so fo| |v]; cbn [bstep] in H.
+  - apply (@mstep_goodO own rk s cs t op s' cs' HG HS H).
+  - destruct (@bstep_grow_inv (s, cs) t v (s', cs') H) as [Ht [Ha He]]. cbn [snd] in Ht, Ha.
+    unfold grow in He. cbn [fst snd] in He. inversion He. subst s' cs'.
+    destruct (@grow_goodO own rk s cs t v HG HS Ht Ha) as [HG' HS'].
+    exists own, rk. split; [exact HG'|]. split; [exact HS'|]. split; [apply ext_refl|].
+    split; [apply list_set_length | apply (@grow_clk cs t v Ht)].
+  - apply (@store_stepR_goodO own rk s cs t rel v o s' cs' HG HS H).
+  - apply (@rmw_stepR_goodO own rk s cs t rel idx f so fo s' cs' HG HS H).
+  - apply (@unsync_load_out own rk s cs t s' cs' HG HS H).
+  - apply (@with_mut_out own rk s cs t v s' cs' HG HS H).
+Qed.
+
 Theorem bstep_goodS : forall st t b st', GoodS st -> bstep st t b = Some st' -> GoodS st'.
 Proof.
-  intros st t [op|v] st' HG H.
-  - apply (@mstep_goodS st t op st' HG H).
-  - destruct (bstep_grow_inv _ _ _ H) as [Ht [Ha He]]. subst st'. apply (grow_goodS HG Ht Ha).
+  intros [s cs] t b [s' cs'] [[own [rk HG]] HS] H. cbn [fst snd] in *.
+  destruct (@bstep_out own rk s cs t b s' cs' HG HS H) as [own' [rk' [HG' [HS' _]]]].
+  split; [exists own', rk'; exact HG' | exact HS'].
 Qed.
 
 Theorem brun_goodS : forall evs st st', GoodS st -> brun st evs = Some st' -> GoodS st'.
@@ -191,22 +402,28 @@ Theorem bstep_stable : forall st t b st' x y,
   lives st x -> lives st y -> mo_lt st x y = true ->
   lives st' x /\ lives st' y /\ mo_lt st' x y = true.
 Proof.
-  intros st t [op|v] st' x y HG H Hx Hy Hlt.
-  - apply (@step_stable_model st t op st' x y HG H Hx Hy Hlt).
-  - destruct (bstep_grow_inv _ _ _ H) as [Ht [_ He]]. subst st'.
-    destruct (grow_facts st v Ht) as [Hf [Hm _]].
-    unfold lives in *. rewrite Hf, Hm. repeat split; assumption.
+  intros [s cs] t b [s' cs'] x y [[own [rk HG]] HS] H Hx Hy Hlt.
+  unfold lives in *. cbn [fst snd] in *.
+  destruct (@bstep_out own rk s cs t b s' cs' HG HS H) as [own' [rk' [[HI' _] [_ [[Hc Hext] _]]]]].
+  destruct HG as [HI _].
+  assert (Hx' : x < at_cnt s') by lia. assert (Hy' : y < at_cnt s') by lia.
+  split; [exact Hx'|]. split; [exact Hy'|].
+  change (vv_lt (mo s x) (mo s y) = true) in Hlt. change (vv_lt (mo s' x) (mo s' y) = true).
+  apply (lt_iff_K HI Hx Hy) in Hlt. destruct Hlt as [Hne HK].
+  apply (lt_iff_K HI' Hx' Hy'). split; [exact Hne|].
+  destruct (Hext x Hx) as [Ho [Hh _]]. destruct (Hext y Hy) as [_ [_ [Hg _]]].
+  unfold K in *. rewrite Ho, Hh. specialize (Hg (own x)). lia.
 Qed.
 
 Theorem bstep_knows : forall st t b st' u i,
   GoodS st -> bstep st t b = Some st' ->
   lives st i -> knows st u i -> lives st' i /\ knows st' u i.
 Proof.
-  intros st t [op|v] st' u i HG H Hi Hk.
-  - apply (@step_knows_model st t op st' u i HG H Hi Hk).
-  - destruct (bstep_grow_inv _ _ _ H) as [Ht [_ He]]. subst st'.
-    destruct (grow_facts st v Ht) as [Hf [_ Hkn]].
-    unfold lives in *. rewrite Hf. split; [exact Hi | apply Hkn; exact Hk].
+  intros [s cs] t b [s' cs'] u i [[own [rk HG]] HS] H Hi Hk.
+  unfold lives, knows in *. cbn [fst snd] in *.
+  destruct (@bstep_out own rk s cs t b s' cs' HG HS H) as [own' [rk' [_ [_ [[Hc Hext] [_ Hg]]]]]].
+  split; [lia|]. destruct (Hext i Hi) as [_ [_ [_ Hs]]].
+  apply (seen_clock_mono _ _ _ (Hg u)). apply Hs. exact Hk.
 Qed.
 
 Theorem brun_stable : forall evs st st' x y,
@@ -354,10 +571,9 @@ Theorem atomic_new_goodS : forall me c0 v0 cs,
   me < length cs -> length cs <= MAX_THREADS -> clk cs me = c0 -> 1 <= vv_get c0 me ->
   (forall t, t < length cs -> t < length (clk cs t)) ->
   (forall u t, u < length cs -> t < length cs -> vv_get (clk cs u) t <= vv_get (clk cs t) t) ->
-  (forall t, t < length cs -> vle c0 (clk cs t)) ->
   GoodS (s_new me c0 v0, cs).
 Proof.
-  intros me c0 v0 cs Hme Hn Hc0 Hk1 Hclen Hbclk Hdom.
+  intros me c0 v0 cs Hme Hn Hc0 Hk1 Hclen Hbclk.
   set (s := s_new me c0 v0).
   assert (H0 : forall a, a < at_cnt s -> a = 0) by (intros a Ha; cbn in Ha; lia).
   assert (Hsrc : forall r sl sid, r < at_cnt s -> st_rmw_src (get_store s r) = Some (sl, sid) -> False).
@@ -371,8 +587,6 @@ Proof.
     - cbn. lia.
     - cbn. unfold MAX_ATOMIC_HISTORY. lia.
     - reflexivity.
-    - intros t Ht. cbn [s s_new at_unsync_mut]. apply vle_join_lub; [apply vle_new | apply (Hdom t Ht)].
-    - intros t Ht. apply vle_new.
     - exact Hn.
     - exact Hclen.
     - intros a Ha. cbn in Ha.
@@ -513,43 +727,325 @@ Proof.
   destruct n as [|n]; cbn in *; [reflexivity | apply IH; exact H].
 Qed.
 
+Lemma list_set_twice : forall (A : Type) (l : list A) n x y,
+  list_set (list_set l n x) n y = list_set l n y.
+Proof.
+  intros A l. induction l as [|h r IH]; intros n x y; [reflexivity|].
+  destruct n as [|n]; cbn [list_set]; [reflexivity | f_equal; apply IH].
+Qed.
+
+(* ---- how the record operations of Ops.v act on (clocks, atomic a) ---- *)
+Lemma clocks_upd_thread : forall e me f t0, get_thread e me = Some t0 ->
+  clocks (upd_thread e me f) = list_set (clocks e) me (t_caus (f t0)).
+Proof.
+  intros e me f t0 H. unfold clocks, upd_thread. cbn [e_threads ex_set_threads].
+  apply (@map_list_upd_caus (e_threads e) me f t0 H).
+Qed.
+
+Lemma clocks_upd_thread_keep : forall e me f,
+  (forall t, t_caus (f t) = t_caus t) -> clocks (upd_thread e me f) = clocks e.
+Proof.
+  intros e me f Hf. unfold clocks, upd_thread, list_upd. cbn [e_threads ex_set_threads].
+  destruct (nth_error (e_threads e) me) as [t0|] eqn:H; [|reflexivity].
+  revert me H. induction (e_threads e) as [|h r IH]; intros me H; [destruct me; discriminate|].
+  destruct me as [|me]; cbn in *; [inversion H; subst; rewrite Hf; reflexivity | f_equal; apply IH; exact H].
+Qed.
+
+Lemma clocks_log_op : forall e me r, clocks (log_op e me r) = clocks e.
+Proof. intros e me r. unfold log_op. destruct (get_thread e me); reflexivity. Qed.
+Lemma clocks_push_cont : forall e me ms, clocks (push_cont e me ms) = clocks e.
+Proof. intros e me ms. unfold push_cont. apply clocks_upd_thread_keep. intros t. reflexivity. Qed.
+Lemma ga_log_op : forall e me r a, get_atomic (log_op e me r) a = get_atomic e a.
+Proof. intros e me r a. unfold log_op. destruct (get_thread e me); reflexivity. Qed.
+Lemma ga_upd_thread : forall e me f a, get_atomic (upd_thread e me f) a = get_atomic e a.
+Proof. reflexivity. Qed.
+Lemma ga_push_cont : forall e me ms a, get_atomic (push_cont e me ms) a = get_atomic e a.
+Proof. reflexivity. Qed.
+Lemma ga_upd_object_same : forall e a s0 s2, get_atomic e a = Some s0 ->
+  get_atomic (upd_object e a (fun _ => OAtomic s2)) a = Some s2.
+Proof.
+  intros e a s0 s2 H. unfold get_atomic in *. unfold upd_object. cbn [e_objects ex_set_objects].
+  destruct (nth_error (e_objects e) a) as [ob|] eqn:Hob; [|discriminate].
+  rewrite (@nth_error_list_upd_same object (e_objects e) a (fun _ => OAtomic s2) ob Hob). reflexivity.
+Qed.
+Lemma gt_upd_object : forall e a f me, get_thread (upd_object e a f) me = get_thread e me.
+Proof. reflexivity. Qed.
+
+Lemma choose_store_frame : forall e seed e2 r, choose_store e seed = (e2, r) ->
+  e_threads e2 = e_threads e /\ e_objects e2 = e_objects e.
+Proof.
+  intros e seed e2 r H. unfold choose_store in H.
+  destruct (if is_traversed (e_path e)
+            then match seed with
+                 | Some sd => match push_load (e_path e) sd with POk p => inl p | PErr x => inr (PanicPath x) end
+                 | None => inr PanicMoEq
+                 end
+            else inl (e_path e)) as [p|p].
+  - destruct (branch_load p) as [[p' idx]|x]; inversion H; split; reflexivity.
+  - inversion H. split; reflexivity.
+Qed.
+
+Section MicroBridge.
+  Variables (e : exec) (me a : nat) (t0 : thread) (s : atomic_state).
+  Hypothesis Hth : get_thread e me = Some t0.
+  Hypothesis Hat : get_atomic e a = Some s.
+
+  Let e1 := causality_inc e me.
+  Let c := vv_inc (t_caus t0) me.
+
+  Lemma mb_th1 : get_thread e1 me = Some (th_set_caus t0 c).
+  Proof.
+    unfold e1, causality_inc, upd_thread, get_thread. cbn [e_threads ex_set_threads].
+    apply (@nth_error_list_upd_same thread (e_threads e) me (fun t => th_set_caus t (vv_inc (t_caus t) me)) t0 Hth).
+  Qed.
+  Lemma mb_at1 : get_atomic e1 a = Some s.
+  Proof. exact Hat. Qed.
+  Lemma mb_cl1 : clocks e1 = list_set (clocks e) me c.
+  Proof. unfold e1, causality_inc. rewrite (clocks_upd_thread e me _ Hth). reflexivity. Qed.
+  Lemma mb_me : me < length (clocks e).
+  Proof. unfold clocks. rewrite map_length. apply nth_error_Some. unfold get_thread in Hth. rewrite Hth. discriminate. Qed.
+  Lemma mb_clk : clk (clocks e) me = t_caus t0.
+  Proof. apply (clk_clocks e me Hth). Qed.
+
+  (* after choose_store, upd_object a, set_caus me c', log / push_cont *)
+  Lemma mb_final : forall e2 r s' c', choose_store e1 r = (e2, inl 0) \/ True ->
+    e_threads e2 = e_threads e1 -> e_objects e2 = e_objects e1 ->
+    clocks (set_caus (upd_object e2 a (fun _ => OAtomic s')) me c') = list_set (clocks e) me c' /\
+    get_atomic (set_caus (upd_object e2 a (fun _ => OAtomic s')) me c') a = Some s'.
+  Proof.
+    intros e2 r s' c' _ Ht2 Ho2.
+    assert (Hth2 : get_thread (upd_object e2 a (fun _ => OAtomic s')) me = Some (th_set_caus t0 c)).
+    { rewrite gt_upd_object. unfold get_thread. rewrite Ht2. apply mb_th1. }
+    split.
+    - unfold set_caus. rewrite (clocks_upd_thread _ me _ Hth2). cbn [t_caus th_set_caus].
+      assert (Hc2 : clocks (upd_object e2 a (fun _ => OAtomic s')) = clocks e1).
+      { unfold clocks, upd_object. cbn [e_threads ex_set_objects]. rewrite Ht2. reflexivity. }
+      rewrite Hc2, mb_cl1. apply list_set_twice.
+    - unfold set_caus. rewrite ga_upd_thread. apply (@ga_upd_object_same e2 a s s').
+      unfold get_atomic. rewrite Ho2. exact mb_at1.
+  Qed.
+End MicroBridge.
+
+(* MStorePost: a BStoreR step with the thread's released clock *)
 Theorem MStorePost_is_step : forall e me a v o e' t0 s,
-  get_thread e me = Some t0 -> t_rel t0 = vv_new ->
-  get_atomic e a = Some s -> at_cnt s < MAX_ATOMIC_HISTORY ->
+  get_thread e me = Some t0 -> get_atomic e a = Some s ->
+  at_cnt s < MAX_ATOMIC_HISTORY -> vle (t_rel t0) (t_caus t0) ->
   exec_micro e me (MStorePost a v o) = MOk e' ->
   exists s', get_atomic e' a = Some s' /\
-             mstep RModel (s, clocks e) me (XStore v o) = Some (s', clocks e').
+             bstep (s, clocks e) me (BStoreR (t_rel t0) v o) = Some (s', clocks e').
 Proof.
-  intros e me a v o e' t0 s Hth Hrel Hat Hroom Hex.
+  intros e me a v o e' t0 s Hth Hat Hroom Hrel Hex.
   cbn [exec_micro] in Hex. cbv zeta in Hex.
-  set (e1 := causality_inc e me) in *.
-  assert (Hth1 : get_thread e1 me = Some (th_set_caus t0 (vv_inc (t_caus t0) me))).
-  { unfold e1, causality_inc, upd_thread, get_thread. cbn [e_threads ex_set_threads].
-    apply (@nth_error_list_upd_same thread (e_threads e) me (fun t => th_set_caus t (vv_inc (t_caus t) me)) t0 Hth). }
-  assert (Hat1 : get_atomic e1 a = Some s) by exact Hat.
-  assert (Hcl1 : clocks e1 = list_set (clocks e) me (vv_inc (t_caus t0) me)).
-  { unfold e1, causality_inc, upd_thread, clocks. cbn [e_threads ex_set_threads].
-    rewrite (@map_list_upd_caus (e_threads e) me (fun t => th_set_caus t (vv_inc (t_caus t) me)) t0 Hth). reflexivity. }
-  rewrite Hat1, Hth1 in Hex. cbn [t_caus th_set_caus t_rel] in Hex.
+  rewrite (@mb_at1 e me a s Hat), (@mb_th1 e me t0 Hth) in Hex. cbn [t_caus th_set_caus t_rel] in Hex.
   destruct (track_store s (vv_inc (t_caus t0) me)) as [s1|p] eqn:Hts; [|discriminate].
   inversion Hex as [He']. clear Hex.
   set (s2 := atomic_store s1 me (vv_inc (t_caus t0) me) (t_rel t0) vv_new v o).
-  exists s2.
-  assert (Hme : me < length (clocks e)).
-  { unfold clocks. rewrite map_length. apply nth_error_Some. unfold get_thread in Hth. rewrite Hth. discriminate. }
-  assert (Hobj : exists ob, nth_error (e_objects e1) a = Some ob).
-  { unfold get_atomic in Hat1. destruct (nth_error (e_objects e1) a) as [ob|]; [exists ob; reflexivity | discriminate]. }
-  destruct Hobj as [ob Hob].
-  split.
-  - unfold log_op. destruct (get_thread (upd_object e1 a (fun _ => OAtomic s2)) me);
-      unfold get_atomic, upd_object; cbn [e_objects ex_set_objects ex_set_log];
-      rewrite (@nth_error_list_upd_same object (e_objects e1) a (fun _ => OAtomic s2) ob Hob); reflexivity.
-  - assert (Hclf : clocks (log_op (upd_object e1 a (fun _ => OAtomic s2)) me RUnit) = clocks e1).
-    { unfold log_op. destruct (get_thread (upd_object e1 a (fun _ => OAtomic s2)) me); reflexivity. }
-    rewrite Hclf, Hcl1.
-    pose proof (clk_clocks e me Hth) as Hck.
-    unfold s2. rewrite Hrel. rewrite <- Hck in *.
-    apply (@store_call_is_step s (clocks e) me v o s1 Hme Hroom Hts).
+  exists s2. split.
+  - rewrite ga_log_op. apply (@ga_upd_object_same (causality_inc e me) a s s2). exact Hat.
+  - rewrite clocks_log_op.
+    assert (Hc : clocks (upd_object (causality_inc e me) a (fun _ => OAtomic s2)) = clocks (causality_inc e me)) by reflexivity.
+    rewrite Hc, (@mb_cl1 e me t0 Hth).
+    cbn [bstep]. unfold store_stepR.
+    pose proof (@mb_me e me t0 Hth) as Hme. pose proof (@mb_clk e me t0 Hth) as Hck.
+    destruct (Nat.ltb_spec me (length (clocks e))) as [_|H]; [|lia]. cbn [negb].
+    destruct (Nat.leb_spec MAX_ATOMIC_HISTORY (at_cnt s)) as [H|_]; [lia|].
+    cbv zeta. rewrite Hck.
+    assert (Hle : vv_le (t_rel t0) (vv_inc (t_caus t0) me) = true).
+    { apply vv_le_spec. eapply vle_trans; [exact Hrel | apply vle_inc]. }
+    rewrite Hle. cbn [negb]. rewrite Hts. reflexivity.
+Qed.
+
+(* MLoadPost (and the load inside load_post): an XLoad step, provided the index
+   chosen by choose_store is a candidate (automatic when the path is being
+   extended; on replay it is a property of the whole exploration) *)
+Theorem MLoadPost_is_step : forall e me a o aw e' t0 s,
+  get_thread e me = Some t0 -> get_atomic e a = Some s -> GoodS (s, clocks e) ->
+  (forall e2 idx l,
+     choose_store (causality_inc e me)
+       (match_load_to_stores s me (vv_inc (t_caus t0) me) (t_last_yield t0) o) = (e2, inl idx) ->
+     match_load_to_stores s me (vv_inc (t_caus t0) me) (t_last_yield t0) o = Some l -> In idx l) ->
+  exec_micro e me (MLoadPost a o aw) = MOk e' ->
+  exists s' idx, get_atomic e' a = Some s' /\
+                 bstep (s, clocks e) me (BOp (XLoad idx o)) = Some (s', clocks e').
+Proof.
+  intros e me a o aw e' t0 s Hth Hat HG Hcand Hex.
+  cbn [exec_micro] in Hex. cbv zeta in Hex.
+  rewrite (@mb_at1 e me a s Hat), (@mb_th1 e me t0 Hth) in Hex. cbn [t_caus th_set_caus t_last_yield] in Hex.
+  set (c := vv_inc (t_caus t0) me) in *.
+  set (seed := match_load_to_stores s me c (t_last_yield t0) o) in *.
+  destruct (choose_store (causality_inc e me) seed) as [e2 [idx|p]] eqn:Hch; [|discriminate].
+  destruct (@choose_store_frame _ _ _ _ Hch) as [Ht2 Ho2].
+  destruct (atomic_load s me c idx o) as [[[s' c'] val]|p] eqn:Hld; [|discriminate].
+  destruct (@mb_final e me a t0 s Hth Hat e2 seed s' c' (or_intror I) Ht2 Ho2) as [Hcl Hga].
+  pose proof (@mb_me e me t0 Hth) as Hme. pose proof (@mb_clk e me t0 Hth) as Hck.
+  assert (Hl : exists l, seed = Some l).
+  { destruct seed as [l|] eqn:Hs; [exists l; reflexivity|].
+    exfalso. destruct (@Good_never_none (s, clocks e) (GoodS_Good HG)) as [Hnn _].
+    apply (Hnn me c (t_last_yield t0) o). exact Hs. }
+  destruct Hl as [l Hl].
+  assert (Hin : In idx l) by (apply (Hcand e2 idx l eq_refl Hl)).
+  assert (Hstep : mstep RModel (s, clocks e) me (XLoad idx o) = Some (s', list_set (clocks e) me c')).
+  { apply (@load_call_is_step s (clocks e) me (t_last_yield t0) o l idx s' c' val HG Hme).
+    - rewrite Hck. exact Hl.
+    - exact Hin.
+    - rewrite Hck. exact Hld. }
+  exists s', idx. cbn [bstep]. rewrite Hstep.
+  set (e3 := set_caus (upd_object e2 a (fun _ => OAtomic s')) me c') in *.
+  destruct aw as [want|].
+  - destruct (N.eqb val want); inversion Hex as [He'].
+    + rewrite ga_log_op, clocks_log_op. split; [exact Hga | rewrite Hcl; reflexivity].
+    + rewrite ga_push_cont, clocks_push_cont, ga_log_op, clocks_log_op.
+      split; [exact Hga | rewrite Hcl; reflexivity].
+  - inversion Hex as [He']. rewrite ga_log_op, clocks_log_op. split; [exact Hga | rewrite Hcl; reflexivity].
+Qed.
+
+(* MFuLoadPost (the load of a fetch_update): an XLoad step with the failure ordering *)
+Theorem MFuLoadPost_is_step : forall e me a f v so fo e' t0 s,
+  get_thread e me = Some t0 -> get_atomic e a = Some s -> GoodS (s, clocks e) ->
+  (forall e2 idx l,
+     choose_store (causality_inc e me)
+       (match_load_to_stores s me (vv_inc (t_caus t0) me) (t_last_yield t0) fo) = (e2, inl idx) ->
+     match_load_to_stores s me (vv_inc (t_caus t0) me) (t_last_yield t0) fo = Some l -> In idx l) ->
+  exec_micro e me (MFuLoadPost a f v so fo) = MOk e' ->
+  exists s' idx, get_atomic e' a = Some s' /\
+                 bstep (s, clocks e) me (BOp (XLoad idx fo)) = Some (s', clocks e').
+Proof.
+  intros e me a f v so fo e' t0 s Hth Hat HG Hcand Hex.
+  cbn [exec_micro] in Hex. cbv zeta in Hex.
+  rewrite (@mb_at1 e me a s Hat), (@mb_th1 e me t0 Hth) in Hex. cbn [t_caus th_set_caus t_last_yield] in Hex.
+  set (c := vv_inc (t_caus t0) me) in *.
+  set (seed := match_load_to_stores s me c (t_last_yield t0) fo) in *.
+  destruct (choose_store (causality_inc e me) seed) as [e2 [idx|p]] eqn:Hch; [|discriminate].
+  destruct (@choose_store_frame _ _ _ _ Hch) as [Ht2 Ho2].
+  destruct (atomic_load s me c idx fo) as [[[s' c'] val]|p] eqn:Hld; [|discriminate].
+  destruct (@mb_final e me a t0 s Hth Hat e2 seed s' c' (or_intror I) Ht2 Ho2) as [Hcl Hga].
+  pose proof (@mb_me e me t0 Hth) as Hme. pose proof (@mb_clk e me t0 Hth) as Hck.
+  assert (Hl : exists l, seed = Some l).
+  { destruct seed as [l|] eqn:Hs; [exists l; reflexivity|].
+    exfalso. destruct (@Good_never_none (s, clocks e) (GoodS_Good HG)) as [Hnn _].
+    apply (Hnn me c (t_last_yield t0) fo). exact Hs. }
+  destruct Hl as [l Hl].
+  assert (Hin : In idx l) by (apply (Hcand e2 idx l eq_refl Hl)).
+  assert (Hstep : mstep RModel (s, clocks e) me (XLoad idx fo) = Some (s', list_set (clocks e) me c')).
+  { apply (@load_call_is_step s (clocks e) me (t_last_yield t0) fo l idx s' c' val HG Hme).
+    - rewrite Hck. exact Hl.
+    - exact Hin.
+    - rewrite Hck. exact Hld. }
+  exists s', idx. cbn [bstep]. rewrite Hstep.
+  inversion Hex as [He']. rewrite ga_push_cont, clocks_push_cont.
+  split; [exact Hga | rewrite Hcl; reflexivity].
+Qed.
+
+(* MRmwPost: a BRmwR step with the thread's released clock *)
+Theorem MRmwPost_is_step : forall e me a k so fo e' t0 s,
+  get_thread e me = Some t0 -> get_atomic e a = Some s ->
+  at_cnt s < MAX_ATOMIC_HISTORY -> vle (t_rel t0) (t_caus t0) ->
+  (forall e2 idx l,
+     choose_store (causality_inc e me) (match_rmw_to_stores s) = (e2, inl idx) ->
+     match_rmw_to_stores s = Some l -> In idx l) ->
+  match_rmw_to_stores s <> None ->
+  exec_micro e me (MRmwPost a k so fo) = MOk e' ->
+  exists s' idx, get_atomic e' a = Some s' /\
+                 bstep (s, clocks e) me (BRmwR (t_rel t0) idx (rmw_fun k) so fo) = Some (s', clocks e').
+Proof.
+  intros e me a k so fo e' t0 s Hth Hat Hroom Hrel Hcand Hnn Hex.
+  cbn [exec_micro] in Hex. cbv zeta in Hex.
+  rewrite (@mb_at1 e me a s Hat), (@mb_th1 e me t0 Hth) in Hex. cbn [t_caus th_set_caus t_rel] in Hex.
+  set (c := vv_inc (t_caus t0) me) in *.
+  destruct (choose_store (causality_inc e me) (match_rmw_to_stores s)) as [e2 [idx|p]] eqn:Hch; [|discriminate].
+  destruct (@choose_store_frame _ _ _ _ Hch) as [Ht2 Ho2].
+  destruct (atomic_rmw s me c (t_rel t0) idx so fo (rmw_fun k)) as [[[[s' c'] prev] ok]|p] eqn:Hr; [|discriminate].
+  destruct (@mb_final e me a t0 s Hth Hat e2 (match_rmw_to_stores s) s' c' (or_intror I) Ht2 Ho2) as [Hcl Hga].
+  pose proof (@mb_me e me t0 Hth) as Hme. pose proof (@mb_clk e me t0 Hth) as Hck.
+  destruct (match_rmw_to_stores s) as [l|] eqn:Hl; [|contradiction Hnn; reflexivity].
+  assert (Hin : In idx l) by (apply (Hcand e2 idx l eq_refl eq_refl)).
+  assert (Hstep : rmw_stepR (s, clocks e) me (t_rel t0) idx (rmw_fun k) so fo = Some (s', list_set (clocks e) me c')).
+  { unfold rmw_stepR.
+    destruct (Nat.ltb_spec me (length (clocks e))) as [_|H]; [|lia]. cbn [negb].
+    destruct (Nat.leb_spec MAX_ATOMIC_HISTORY (at_cnt s)) as [H|_]; [lia|].
+    cbv zeta. rewrite Hck. fold c.
+    assert (Hle : vv_le (t_rel t0) c = true).
+    { apply vv_le_spec. eapply vle_trans; [exact Hrel | apply vle_inc]. }
+    rewrite Hle. cbn [negb]. rewrite Hl, (@In_existsb_eqb idx l Hin), Hr. reflexivity. }
+  exists s', idx. cbn [bstep]. rewrite Hstep.
+  set (e3 := set_caus (upd_object e2 a (fun _ => OAtomic s')) me c') in *.
+  destruct k as [f0 v0|ex nw|f0 v0 pv].
+  - inversion Hex as [He']. rewrite ga_log_op, clocks_log_op. split; [exact Hga | rewrite Hcl; reflexivity].
+  - inversion Hex as [He']. rewrite ga_log_op, clocks_log_op. split; [exact Hga | rewrite Hcl; reflexivity].
+  - destruct ok; inversion Hex as [He'].
+    + rewrite ga_log_op, clocks_log_op. split; [exact Hga | rewrite Hcl; reflexivity].
+    + rewrite ga_push_cont, clocks_push_cont. split; [exact Hga | rewrite Hcl; reflexivity].
+Qed.
+
+(* MUnsyncLoad / MWithMut (after fix D23 they tick the clock) *)
+Theorem MUnsyncLoad_is_step : forall e me a e' t0 s,
+  get_thread e me = Some t0 -> get_atomic e a = Some s ->
+  exec_micro e me (MUnsyncLoad a) = MOk e' ->
+  exists s', get_atomic e' a = Some s' /\
+             bstep (s, clocks e) me BUnsyncLoad = Some (s', clocks e').
+Proof.
+  intros e me a e' t0 s Hth Hat Hex.
+  cbn [exec_micro] in Hex. cbv zeta in Hex.
+  rewrite (@mb_at1 e me a s Hat) in Hex. unfold caus_of in Hex. rewrite (@mb_th1 e me t0 Hth) in Hex.
+  cbn [t_caus th_set_caus] in Hex.
+  destruct (track_unsync_load s (vv_inc (t_caus t0) me)) as [s1|p] eqn:Htr; [|discriminate].
+  inversion Hex as [He']. exists s1. split.
+  - rewrite ga_log_op. apply (@ga_upd_object_same (causality_inc e me) a s s1). exact Hat.
+  - rewrite clocks_log_op.
+    assert (Hc : clocks (upd_object (causality_inc e me) a (fun _ => OAtomic s1)) = clocks (causality_inc e me)) by reflexivity.
+    rewrite Hc, (@mb_cl1 e me t0 Hth). cbn [bstep]. unfold unsync_load_step.
+    pose proof (@mb_me e me t0 Hth) as Hme. pose proof (@mb_clk e me t0 Hth) as Hck.
+    destruct (Nat.ltb_spec me (length (clocks e))) as [_|H]; [|lia]. cbn [negb].
+    cbv zeta. rewrite Hck, Htr. reflexivity.
+Qed.
+
+Theorem MWithMut_is_step : forall e me a v e' t0 s,
+  get_thread e me = Some t0 -> get_atomic e a = Some s ->
+  exec_micro e me (MWithMut a v) = MOk e' ->
+  exists s', get_atomic e' a = Some s' /\
+             bstep (s, clocks e) me (BWithMut v) = Some (s', clocks e').
+Proof.
+  intros e me a v e' t0 s Hth Hat Hex.
+  cbn [exec_micro] in Hex. cbv zeta in Hex.
+  rewrite (@mb_at1 e me a s Hat) in Hex. unfold caus_of in Hex. rewrite (@mb_th1 e me t0 Hth) in Hex.
+  cbn [t_caus th_set_caus] in Hex.
+  destruct (track_unsync_mut s (vv_inc (t_caus t0) me)) as [s1|p] eqn:Htr; [|discriminate].
+  match type of Hex with match track_unsync_mut ?S2 _ with _ => _ end = _ => set (s2 := S2) in * end.
+  destruct (track_unsync_mut s2 (vv_inc (t_caus t0) me)) as [s3|p] eqn:Htr2; [|discriminate].
+  inversion Hex as [He']. exists s3. split.
+  - rewrite ga_log_op. apply (@ga_upd_object_same (causality_inc e me) a s s3). exact Hat.
+  - rewrite clocks_log_op.
+    assert (Hc : clocks (upd_object (causality_inc e me) a (fun _ => OAtomic s3)) = clocks (causality_inc e me)) by reflexivity.
+    rewrite Hc, (@mb_cl1 e me t0 Hth). cbn [bstep]. unfold with_mut_step.
+    pose proof (@mb_me e me t0 Hth) as Hme. pose proof (@mb_clk e me t0 Hth) as Hck.
+    destruct (Nat.ltb_spec me (length (clocks e))) as [_|H]; [|lia]. cbn [negb].
+    cbv zeta. rewrite Hck, Htr. fold s2. rewrite Htr2. reflexivity.
+Qed.
+
+(* ---- building blocks for the frame property of the other micro-operations ---- *)
+Lemma nth_error_list_upd_other : forall (A : Type) (l : list A) n j f,
+  n <> j -> nth_error (list_upd l n f) j = nth_error l j.
+Proof.
+  intros A l n j f Hne. unfold list_upd. destruct (nth_error l n) as [x|]; [|reflexivity].
+  apply (@list_set_nth_error_other A l n j (f x) Hne).
+Qed.
+
+(* an operation on another object does not touch atomic a *)
+Lemma ga_upd_object_other : forall e b f a, b <> a ->
+  get_atomic (upd_object e b f) a = get_atomic e a.
+Proof.
+  intros e b f a Hne. unfold get_atomic, upd_object. cbn [e_objects ex_set_objects].
+  rewrite (@nth_error_list_upd_other object (e_objects e) b a f Hne). reflexivity.
+Qed.
+
+(* acquiring a view is a grow step on the clocks *)
+Lemma set_caus_join_is_grow : forall e me t0 v s,
+  get_thread e me = Some t0 ->
+  (s, clocks (set_caus e me (vv_join (t_caus t0) v))) = grow (s, clocks e) me v.
+Proof.
+  intros e me t0 v s Hth. unfold grow, set_caus. cbn [fst snd].
+  rewrite (clocks_upd_thread e me _ Hth). cbn [t_caus th_set_caus].
+  rewrite (clk_clocks e me Hth). reflexivity.
 Qed.
 
 Print Assumptions grow_goodS.
@@ -571,3 +1067,11 @@ Print Assumptions store_call_is_step.
 Print Assumptions rmw_call_is_step.
 Print Assumptions sync_view_admissible.
 Print Assumptions MStorePost_is_step.
+Print Assumptions MLoadPost_is_step.
+Print Assumptions MFuLoadPost_is_step.
+Print Assumptions MRmwPost_is_step.
+Print Assumptions MUnsyncLoad_is_step.
+Print Assumptions MWithMut_is_step.
+Print Assumptions bstep_out.
+Print Assumptions unsync_load_out.
+Print Assumptions with_mut_out.
